@@ -15,8 +15,8 @@
 //   marker character and a newline) and maintains _start_of_line like the real get().
 // CHARLEVEL=1: the real character-level code reads the text of the file through the istream byte model; DECOR selects
 //   how the lines are spelled (blanks around '#', trailing /* # */ or // # comments).
-// Cut in both modes, as the plan says: macro expansion and the bison parser inside handle_if_directive (parse_expr
-// returns the literal 0/1 of the controlling expression as a real CPPExpression which the real evaluate() evaluates);
+// Cut in both modes, as the plan says: macro expansion, the bison parser and expression evaluation inside
+// handle_if_directive (parse_expr + evaluate return the truth value of the literal 0/1 controlling expression);
 // is_manifest_defined is "the name is D"; handle_define_directive / handle_error_directive record that they ran.
 #include "verif.h"
 #include "vstream.h"
@@ -114,9 +114,19 @@ bool CPPPreprocessor::is_manifest_defined(const std::string &name) const {
   return name.size() == 1 && name[0] == 'D';
 }
 void CPPPreprocessor::expand_manifests(std::string &expr, bool expand_undefined, const CPPManifest::Ignores &ignores) const {}
+static int if_truth;
+static char dummy_expr[sizeof(CPPExpression)] __attribute__((aligned(16)));
 bool CPPExpressionParser::parse_expr(const std::string &expr, const CPPPreprocessor &filepos) {
-  _expr = new CPPExpression((int)(expr.size() == 1 && expr[0] == '1'));
+  if_truth = (expr.size() == 1 && expr[0] == '1');
+  _expr = reinterpret_cast<CPPExpression *>(dummy_expr);       // never dereferenced: evaluate() is cut as well
   return true;
+}
+CPPExpression::Result CPPExpression::evaluate() const {
+  Result r;
+  r._type = RT_integer;
+  r._u._pointer = nullptr;        // all bytes of the union defined (the value travels in a register pair)
+  r._u._integer = if_truth;
+  return r;
 }
 void CPPPreprocessor::handle_define_directive(const std::string &args, const YYLTYPE &loc) {
   int l = LINE_OF(loc);
